@@ -22,6 +22,9 @@ CLAIMED = {
  "C07": ("callee/field identity of the route source, verb TABLE (DSL constructors vs builder switch vs document slots), CONSUMES over HTTPEndpointExpr via reachability-scoped field reads, walker/collection agreement lint, memo-key / stale-flag / required-key lints",
          "Static necessary conditions only: server and both documents share FullPaths/Method; every mountable verb has a case where the format has a slot; every request location the server reads is read by the builders; required flags and `in` literals are taken from the collection being walked; same has-body predicate; base path decided per route; required flags propagated under the key they are looked up with. Does not decide validity against the OpenAPI schemas nor JSON≡YAML.",
          "DESIGN.md §3 C07"),
+ "C08": ("AST data-flow rules on projectSingle/projectRecursive, edge-dominance nil facts, abstract expansion of the viewed-validation template, header-constant agreement across templates, stale-loop-state lints",
+         "Static necessary conditions only: projection draws names, type and required list from the view; unknown views are refused (Go and generated validation); one view header constant on both sides; projection memo keyed by the projecting view; no stale per-iteration view state in the generators; view overrides copied whenever present. Does not decide wire content for values nor Project's recursion on all graphs.",
+         "DESIGN.md §3 C08"),
  "C09": ("map-iteration-order classification (reviewed table), sort-comparator lint, forbidden-call scan, SSA path table of File.Render, reachability-scoped who-may-produce rule, template parse-tree order, go/cfg dominance and error-gate polarity",
          "Static necessary conditions only: no order-sensitive map iteration or mis-indexed comparator in generator packages, no ambient nondeterminism, seeded example randomizer, existing example files never opened, append-only opening, gen directories wiped before regeneration, sorted output list, write-pipeline errors tested with the right polarity. Cannot prove byte equality across processes.",
          "DESIGN.md §3 C09"),
